@@ -377,6 +377,10 @@ class LibMap:
                 tag = em.tm.tag(ct[:-1])
                 em.tm.seq_insts.setdefault(tag, ct[:-1])
                 return "vf_seq_%s_sort_in(%s, %s, %d)" % (tag, em.E(args[0]), em.E(args[1]), desc)
+        if name == "make_pair" and len(args) == 2:
+            ct = self.mapped(em, n)
+            if ct and ct.startswith("struct vf_pair_"):
+                return "((%s){%s, %s})" % (ct, em.E(args[0]), em.E(args[1]))
         if name in ("get_pointer",) and len(args) == 1:
             return em.E(args[0])
         if name in MATH1:
